@@ -251,7 +251,7 @@ def run(prog, rep):
     guarded(rep, "C01.R4", "crate::wrap::wrap_single_line", lambda: _r4(prog, rep))
     guarded(rep, "C01.R5", "crate::wrap::wrap", lambda: _r5(prog, rep))
     # R7: imported lemmas
-    need = ["C06.R2", "C11.R1", "C11.R3", "C12.R1", "C12.R5"]
+    need = ["C06.R2", "C11.R1", "C11.R3", "C12.R1", "C12.R2", "C12.R5", "C12.R9"]
     if has_feature(prog, "smawk"):
         need.append("C06.R3")
     if has_feature(prog, "unicode-linebreak"):
